@@ -557,8 +557,9 @@ def clip_native_to_wngrid(native_grid, wngrid):
 
     min_wngrid = wngrid.min()
     max_wngrid = wngrid.max()
-    #Compute the maximum width
-    wnwidths = compute_bin_edges(wngrid)[-1]
+    #Compute the maximum width (of the grid in ascending order: the widths
+    #of neighbouring points only mean something for an ordered grid)
+    wnwidths = compute_bin_edges(np.sort(wngrid))[-1]
     wn_min = min_wngrid - wnwidths.max()
     wn_max = max_wngrid + wnwidths.max()
 
